@@ -139,9 +139,9 @@ package shimagent
 //@ func (*Server).Sign(s, key, data)
 //@   requires s != nil && inv(s) && unheld(s)
 //@   modifies mstate(addrof(s.mu)), mapof(s.certs), mapof(s.upstreamSSHCACertCache)
-//@   let w0 = old(calls(SignWithFlags))
-//@   ensures calls(SignWithFlags) == w0 + 1 && arg(SignWithFlags, w0, 0) == s && arg(SignWithFlags, w0, 1) == key && arg(SignWithFlags, w0, 2) == data &&
-//@     arg(SignWithFlags, w0, 3) == 0 && result0 == ret(SignWithFlags, w0, 0) && result1 == ret(SignWithFlags, w0, 1)
+//@   let w0 = old(calls(Server.SignWithFlags))
+//@   ensures calls(Server.SignWithFlags) == w0 + 1 && arg(Server.SignWithFlags, w0, 0) == s && arg(Server.SignWithFlags, w0, 1) == key && arg(Server.SignWithFlags, w0, 2) == data &&
+//@     arg(Server.SignWithFlags, w0, 3) == 0 && result0 == ret(Server.SignWithFlags, w0, 0) && result1 == ret(Server.SignWithFlags, w0, 1)
 
 //@ func (*Server).SignWithFlags(s, key, data, flags)
 //@   flag logged
